@@ -245,6 +245,12 @@ def primitives(interp):
         return loops.prim_invariant(interp, label, cond)
     ns["invariant"] = invariant
 
+    @_b("loop_phase")
+    def loop_phase(interp):
+        from . import loops
+        return loops.loop_phase(interp)
+    ns["loop_phase"] = loop_phase
+
     @_b("decreases")
     def decreases(interp, expr):
         from . import loops
@@ -329,6 +335,22 @@ def primitives(interp):
         rope[0].parts = list(target)
         return None
     ns["refine_as"] = refine_as
+
+    @_b("use_lemma")
+    def use_lemma(interp, name, cond):
+        """instance of a lemma that is proved elsewhere in the same contract file as an induction step (obligation `name`):
+        assumed here.  The name must be that of a registered lemma/obligation, and the use is recorded in evidence."""
+        names = [a[1] for kind, a, k, f in getattr(interp, "registry", []) if kind in ("obligation", "lemma")]
+        if name not in names:
+            raise Unsupported(f"use_lemma: no lemma or obligation named {name!r} in this contract file")
+        interp.ctx.notes.append(f"lemma instance assumed: {name} (proved as its own obligation by induction)")
+        v = interp.symtruth(cond)
+        if v is False:
+            raise PathInfeasible()
+        if v is not True:
+            interp.ctx.assume(v.t)
+        return None
+    ns["use_lemma"] = use_lemma
 
     @_b("by_tier")
     def by_tier(interp, quick, thorough):
